@@ -3,3 +3,7 @@
 
 def tag(s):
     return "p3:" + s
+
+
+def conv(s):
+    return "c3:" + s
